@@ -200,6 +200,15 @@ func (a *Allocation) AddChannelBind(chanBind *ChannelBind, channelLifetime, perm
 		return ErrSameChannelDifferentPeer
 	}
 
+	// A refresh that finds the binding's timer already fired comes too late: the binding
+	// has expired. Complete its removal (the timer callback removes only its own binding)
+	// and bind the channel anew, so that success always leaves a binding with a full
+	// lifetime behind.
+	if channelByNumber != nil && !channelByNumber.refresh(channelLifetime) {
+		a.removeChannelBind(channelByNumber)
+		channelByNumber = nil
+	}
+
 	// Add or refresh this channel.
 	if channelByNumber == nil {
 		a.channelBindingsLock.Lock()
@@ -223,8 +232,6 @@ func (a *Allocation) AddChannelBind(chanBind *ChannelBind, channelLifetime, perm
 				a.RelayAddr, chanBind.Peer, uint16(chanBind.Number))
 		}
 	} else {
-		channelByNumber.refresh(channelLifetime)
-
 		// Channel binds also refresh permissions.
 		a.AddPermission(NewPermission(channelByNumber.Peer, a.log, permissionLifetime))
 	}
@@ -243,6 +250,28 @@ func (a *Allocation) RemoveChannelBind(number proto.ChannelNumber) bool {
 				a.eventHandler.OnChannelDeleted(a.fiveTuple.SrcAddr, a.fiveTuple.DstAddr,
 					a.fiveTuple.Protocol.String(), a.userID, a.realm,
 					a.RelayAddr, a.channelBindings[i].Peer, uint16(a.channelBindings[i].Number))
+			}
+
+			a.channelBindings = append(a.channelBindings[:i], a.channelBindings[i+1:]...)
+
+			return true
+		}
+	}
+
+	return false
+}
+
+// removeChannelBind removes this very ChannelBind (a newer one may have the number by now).
+func (a *Allocation) removeChannelBind(chanBind *ChannelBind) bool {
+	a.channelBindingsLock.Lock()
+	defer a.channelBindingsLock.Unlock()
+
+	for i := len(a.channelBindings) - 1; i >= 0; i-- {
+		if a.channelBindings[i] == chanBind {
+			if a.eventHandler.OnChannelDeleted != nil {
+				a.eventHandler.OnChannelDeleted(a.fiveTuple.SrcAddr, a.fiveTuple.DstAddr,
+					a.fiveTuple.Protocol.String(), a.userID, a.realm,
+					a.RelayAddr, chanBind.Peer, uint16(chanBind.Number))
 			}
 
 			a.channelBindings = append(a.channelBindings[:i], a.channelBindings[i+1:]...)
